@@ -118,6 +118,7 @@ func emitFloatEnc(id string, bits int, pat uint64, quoted bool) {
 
 func emitFloatDec(id string, bits int, lit string) {
 	var fork, std, ptr, anyv string
+	fany := "-"
 	res := guarded(func() string {
 		data := []byte(lit)
 		if bits == 64 {
@@ -147,6 +148,16 @@ func emitFloatDec(id string, bits int, lit string) {
 			} else {
 				anyv = "other"
 			}
+			// the FORK's own float path for interface{} targets: a Decoder without UseNumber (convertNumber); the
+			// package-level Unmarshal functions force UseNumber and never get there
+			var y interface{}
+			if err := ijson.NewDecoder(bytes.NewReader(data)).Decode(&y); err != nil {
+				fany = "err"
+			} else if f, ok := y.(float64); ok {
+				fany = "ok:" + strconv.FormatUint(math.Float64bits(f), 16)
+			} else {
+				fany = "other"
+			}
 		} else {
 			var a, b float32
 			a, b = 1.5, 1.5
@@ -171,14 +182,18 @@ func emitFloatDec(id string, bits int, lit string) {
 		return "done"
 	})
 	if res != "done" {
-		fork, std, ptr, anyv = res, res, res, res
+		fork, std, ptr, anyv, fany = res, res, res, res, res
 	}
-	emit("FLOAT %s dec %d %s => %s %s %s %s", id, bits, hx([]byte(lit)), fork, std, ptr, anyv)
+	emit("FLOAT %s dec %d %s => %s %s %s %s %s", id, bits, hx([]byte(lit)), fork, std, ptr, anyv, fany)
 }
 
 // ---------- generators ----------
 
 var floatHard = []string{
+	// integers around the limits of the machine integer types (a shortcut through int64/uint64 arithmetic goes wrong here)
+	"9223372036854775807", "9223372036854775808", "9223372036854775809", "-9223372036854775808", "-9223372036854775809", "9300000000000000000",
+	"9999999999999999999", "-9999999999999999999", "18446744073709551615", "18446744073709551616", "18446744073709551617", "10000000000000000000",
+	"4294967295", "4294967296", "2147483647", "2147483648", "-2147483649", "999999999999999999", "1000000000000000000", "12345678901234567890",
 	"2.2250738585072011e-308", "2.2250738585072012e-308", "2.2250738585072014e-308", "1.7976931348623157e308",
 	"1.7976931348623158e308", "1.7976931348623159e308", "4.9e-324", "2.4703282292062327e-324", "2.4703282292062328e-324",
 	"9007199254740993", "9007199254740992", "9007199254740991", "9007199254740994", "9007199254740995", "0.1", "1e23", "8.41e21", "5e-324", "1.1754943e-38",
